@@ -15,7 +15,7 @@
    Overflow, exactness for integers, totality.  Part 3: histories. *)
 From Coq Require Import List NArith ZArith Bool QArith Qabs.
 From AHK Require Import Lib.Res Model.Convert Model.ConvertHist Proofs.ConvertInt Proofs.ConvertQ Proofs.ConvertFrac Proofs.ConvertRange
-  Proofs.ConvertBound Proofs.ConvertGuard Proofs.ConvertHist.
+  Proofs.ConvertBound Proofs.ConvertGuard Proofs.ConvertHist Proofs.ConvertSign.
 Import ListNotations.
 Local Open Scope Z_scope.
 
@@ -455,6 +455,37 @@ Example c14_history_nonvacuous :
      Ok [(1%N, 3%N, VInt 3%Z); (1%N, 2%N, VDec (mk 223%N (-1)%Z))]].
 Proof. vm_compute. reflexivity. Qed.
 
+(* ====================================================================== *)
+(* Part 4 (round 9): branch selection and the number of steps               *)
+(* ====================================================================== *)
+(* The grid does not depend on the sign of the declared step: with [int_exact]
+   (which holds for every integer-valued step, negative ones included) the value
+   prepared for an integer format is the same for minStep = s and minStep = -s. *)
+Theorem step_sign_irrelevant : forall omin omax s v,
+  spec_int omin omax (Some (- s)%Z) v = spec_int omin omax (Some s) v.
+Proof. exact spec_int_step_sign. Qed.
+
+(* non-vacuity / the two dimensions seeds C14-Q and C14-R changed, as computations of the model:
+   six digits hold 999999 steps, but a value 5*10^6 (and exactly 10^6) steps above the minimum is
+   still prepared (float 0..100000 step 0.01 value 50000; float 0..1 step 1e-6 value 1; uint32 step 1
+   value 1234567.5 on the six-digit path); an integer format with a fractional step or a fractional
+   minimum takes the six-digit path although the VALUE is integral (uint8 0..100 step 0.5 value 5 -> 5;
+   int -50..50 step 2.5 value 4 -> 5; uint8 0.5..100.5 step 2 value 7 -> 6.5, handed over as 6);
+   a negative step gives the grid of its absolute value in both branches. *)
+Example c14_branch_nonvacuous :
+  let mk := fun c e => mkDec false c e in
+  let mkn := fun c e => mkDec true c e in
+  check_convert FFloat (Some (mk 0%N 0%Z)) (Some (mk 100000%N 0%Z)) (Some (mk 1%N (-2)%Z)) [] (RFin (mk 50000%N 0%Z)) = Ok (VDec (mk 50000%N 0%Z)) /\
+  check_convert FFloat (Some (mk 0%N 0%Z)) (Some (mk 1%N 0%Z)) (Some (mk 1%N (-6)%Z)) [] (RFin (mk 1%N 0%Z)) = Ok (VDec (mk 1%N 0%Z)) /\
+  check_convert FUint32 (Some (mk 0%N 0%Z)) (Some (mk 4294967295%N 0%Z)) (Some (mk 1%N 0%Z)) [] (RFin (mk 12345675%N (-1)%Z)) = Ok (VInt 1234570%Z) /\
+  check_convert FUint8 (Some (mk 0%N 0%Z)) (Some (mk 100%N 0%Z)) (Some (mk 5%N (-1)%Z)) [] (RFin (mk 5%N 0%Z)) = Ok (VInt 5%Z) /\
+  check_convert FInt (Some (mkn 50%N 0%Z)) (Some (mk 50%N 0%Z)) (Some (mk 25%N (-1)%Z)) [] (RFin (mk 4%N 0%Z)) = Ok (VInt 5%Z) /\
+  check_convert FUint8 (Some (mk 5%N (-1)%Z)) (Some (mk 1005%N (-1)%Z)) (Some (mk 2%N 0%Z)) [] (RFin (mk 7%N 0%Z)) = Ok (VInt 6%Z) /\
+  check_convert FUint8 (Some (mk 0%N 0%Z)) (Some (mk 100%N 0%Z)) (Some (mkn 2%N 0%Z)) [] (RFin (mk 7%N 0%Z)) = Ok (VInt 8%Z) /\
+  check_convert FFloat (Some (mk 10%N 0%Z)) (Some (mk 38%N 0%Z)) (Some (mkn 5%N (-1)%Z)) [] (RFin (mk 2726%N (-2)%Z)) = Ok (VDec (mk 275%N (-1)%Z)) /\
+  spec_int (Some 0%Z) (Some 100%Z) (Some (-2)%Z) 7%Z = 8%Z.
+Proof. cbv zeta. repeat split; vm_compute; reflexivity. Qed.
+
 Print Assumptions int_exact_ideal.
 Print Assumptions int_exact.
 Print Assumptions int_nearest_grid_point.
@@ -495,3 +526,4 @@ Print Assumptions overflow_meaning.
 Print Assumptions shortcuts_are_exact.
 Print Assumptions frac_six_digits_model.
 Print Assumptions thread_context_irrelevant.
+Print Assumptions step_sign_irrelevant.
